@@ -13,6 +13,7 @@ From Coq Require Import List NArith ZArith String Bool Sorted Permutation.
 From EKW Require Import Shm.Lottery Shm.LotteryProofs Shm.Manager Shm.ManagerProofs Shm.ManagerLive Shm.ManagerBytes.
 From EKW Require Import Shm.ManagerReaders Shm.ManagerLocks Shm.ManagerLocksProofs Shm.ManagerStuck.
 From EKW Require Import Shm.PageInChunks Shm.PageInChunksProofs.
+From EKW Require Import Shm.ClientRpc Shm.ClientRpcProofs.
 From EKW Require Shm.ManagerCheck.   (* not used here: keeps the correspondence checker's .vo in step with the model *)
 Import ListNotations.
 Open Scope string_scope.
@@ -343,6 +344,45 @@ Example C09_concurrent_page_ins_nonvacuous :
     [(true, [241; 242; 243]%N); (true, [241; 242; 243]%N)].
 Proof. vm_compute. repeat split; reflexivity. Qed.
 
+(* ------------------------------------------------------------------ (10) the answer a client call acts on is its own *)
+(* Everything above speaks of requests and THEIR answers.  The clients are the threads of a process (the pool of the data server runs
+   get / allocate / purge side by side) and a call is: send a datagram, receive one.  Shm/ClientRpc.v: any number of threads and
+   sockets, any interleaving with the server; an answer goes to the socket its request came from, a recv takes the oldest datagram of
+   its socket.  Discipline (n_bad = false): a request is sent on a socket with no unanswered request by a thread with none, a socket
+   is read by the thread whose request is outstanding on it, and is not closed meanwhile -- one socket per command (client.py), one
+   per thread, one under a lock from send to recv.  Then whatever a thread receives is the answer to the request it sent last: the
+   bytes, the reader id, the `wait` it acts upon are its own. *)
+Theorem C09_client_call_gets_its_own_answer : forall log1 t s q log2 st,
+  crun net0 (log1 ++ CRecv t s q :: log2) = Some st -> n_bad st = false ->
+  exists st1, crun net0 log1 = Some st1 /\ n_last st1 t = Some q /\ n_out st1 s = Some (t, q) /\ n_busy st1 t = Some s /\
+              n_rx st1 s = [q] /\ n_pend st1 s = [].
+Proof. exact received_answer_is_own. Qed.
+
+Theorem C09_disciplined_clients_never_mispaired : forall log st,
+  crun net0 log = Some st -> n_bad st = false -> n_mis st = false.
+Proof. exact disciplined_never_mispaired. Qed.
+
+(* a socket kept open and used by the threads of a process at the same time is expressible in the model and wrong: both send before
+   either receives, thread 2 is handed the answer to the request of thread 1 (its segment, its reader id) *)
+Theorem C09_socket_shared_by_threads_is_wrong :
+  exists st, crun net0 shared_socket_log = Some st /\ n_bad st = true /\ n_mis st = true /\
+             n_last st 2%N = Some 1%N /\ In (CRecv 2 7 0)%N shared_socket_log.
+Proof. exact shared_socket_mispairs. Qed.
+
+Example C09_client_call_gets_its_own_answer_nonvacuous :
+  check_client_log private_sockets_log = true /\ check_client_log shared_socket_log = false /\
+  (exists st, crun net0 private_sockets_log = Some st /\ n_bad st = false /\ n_last st 2%N = Some 1%N /\ n_closed st 8%N = true) /\
+  (* a socket per thread, kept open over two calls each, the calls of the two threads interleaved *)
+  check_client_log [CSend 1 7 0; CSend 2 8 1; CHandle 1 8; CRecv 2 8 1; CSend 2 8 2; CHandle 0 7; CHandle 2 8; CRecv 1 7 0;
+                    CSend 1 7 3; CRecv 2 8 2; CHandle 3 7; CRecv 1 7 3]%N = true /\
+  (* an answer that arrives after its socket was closed is lost; the log is a run, the discipline is broken *)
+  (exists st, crun net0 [CSend 1 7 0; CClose 7; CHandle 0 7]%N = Some st /\ n_bad st = true /\ n_rx st 7%N = []).
+Proof.
+  split; [vm_compute; reflexivity|]. split; [vm_compute; reflexivity|].
+  split; [eexists; split; [vm_compute; reflexivity|]; cbn; repeat split; reflexivity|].
+  split; [vm_compute; reflexivity|]. eexists. split; [vm_compute; reflexivity|]. cbn. split; reflexivity.
+Qed.
+
 Print Assumptions C09_bytes_preserved_partial.
 Print Assumptions C09_bytes_preserved_refuted.
 Print Assumptions C09_no_read_before_close_partial.
@@ -362,3 +402,6 @@ Print Assumptions C09_failed_pageout_under_stale_reader_refuted.
 Print Assumptions C09_concurrent_page_ins_restore_the_bytes.
 Print Assumptions C09_page_in_reads_its_own_file.
 Print Assumptions C09_shared_page_in_buffer_is_wrong.
+Print Assumptions C09_client_call_gets_its_own_answer.
+Print Assumptions C09_disciplined_clients_never_mispaired.
+Print Assumptions C09_socket_shared_by_threads_is_wrong.
